@@ -3,6 +3,7 @@
 Each model is small and is cross-checked against CPython by pyvc/selftest.py.
 """
 import ast
+import os
 import z3
 
 from .vals import *
@@ -299,12 +300,23 @@ class Models:
             return eng.pclass(k, ci)
         return vcls(eng.type_of(st, v))
 
+    def class_level(self, eng, st, v, sid):
+        """the class-level part of an attribute read: on a class value the class's own (inherited) attribute, otherwise the attribute of
+        the value's class; decided statically where the path condition settles which (keeps an if-then-else out of most terms)"""
+        if eng.valid(st, z3.Not(is_cls(v))):
+            return clsattr(eng.type_of(st, v), sid)
+        if eng.valid(st, is_cls(v)):
+            return clsattr(c_of(v), sid)
+        if os.environ.get("PYVC_DEBUG_CLS"):
+            print("class_level undecided for", v.sexpr()[:120], sid)
+        return z3.If(is_cls(v), clsattr(c_of(v), sid), clsattr(eng.type_of(st, v), sid))
+
     def foreign_getattr(self, eng, st, v, name, fx):
         """object of a class outside the function table: instance dict, then its class, else AttributeError"""
         sid = STR.sid(name)
         iv = z3.If(is_ref(v), z3.Select(st.get("idict", a_of(v)), sid), ABSENT)
         # (an attribute read on a class value sees what instances of that class see: the class attribute, inherited ones included)
-        cv = z3.If(is_cls(v), clsattr(c_of(v), sid), clsattr(eng.type_of(st, v), sid))
+        cv = self.class_level(eng, st, v, sid)
         val = z3.If(is_absent(iv), cv, iv)
         out = []
         for s2, b in eng.split(st, is_absent(val), note="attr %s missing" % name):
@@ -1558,7 +1570,7 @@ class Models:
             # foreign object, symbolic attribute name: instance dict, then its class
             sid = s_of(name)
             iv = z3.If(is_ref(obj), z3.Select(st.get("idict", a_of(obj)), sid), ABSENT)
-            val = z3.If(is_absent(iv), clsattr(eng.type_of(st, obj), sid), iv)
+            val = z3.If(is_absent(iv), self.class_level(eng, st, obj, sid), iv)
             out = []
             for s2, b in eng.split(st, is_absent(val), note="dynamic attr missing"):
                 if not b:
